@@ -9,6 +9,7 @@ from __future__ import annotations
 
 import builtins
 import io
+import logging
 import os
 import shutil
 import stat
@@ -45,6 +46,7 @@ EXIT = {"op": "Exit", "p": "", "q": "", "kw": False, "fl": "", "eo": False, "via
 def setup(work: Path) -> None:
     """Enable the isolation as pynguin's configuration does; keep its tmp dir below *work*."""
     config.configuration.filesystem_isolation = True
+    logging.getLogger(fsi.__name__).setLevel(logging.ERROR)  # "Failed to cleanup path" warnings
     tmp = work / "tmp"
     tmp.mkdir(parents=True, exist_ok=True)
     os.environ["TMPDIR"] = str(tmp)
@@ -191,19 +193,24 @@ def _resname(ex: BaseException) -> str:
 
 
 def replay(beh: dict, root: str) -> dict:
-    """Execute one abstract history in the fresh sandbox *root* under the real isolation."""
+    """Execute one abstract history in the fresh sandbox *root* under the real isolation.
+
+    Returns {"pre": snapshot before __enter__, "ev": [one event per call + the Exit event]}; an event
+    holds the call, its outcome `res`, the snapshot after it `fs1`, `_created` after it (`cr1` inside
+    the modelled tree, `co1` elsewhere), unmodelled paths found `x1` and `r1` (root still there).
+    The state before a call is the state after the previous one (see expand())."""
     assert not os.path.lexists(root)
     build_tree(root)
     snap = Snap(root)
     try:
         pre, x0, _ = snap.take()
+        assert not x0
         events = []
         iso = fsi.FilesystemIsolation()
         assert iso._enabled, "filesystem_isolation flag not set"  # noqa: SLF001
         iso.__enter__()
         exited = False
         try:
-            fs0, cr0 = pre, _created(iso, root)
             for act in beh["hist"]:
                 try:
                     _perform(act, root)
@@ -212,9 +219,8 @@ def replay(beh: dict, root: str) -> dict:
                     res = _resname(ex)
                 fs1, x1, _ = snap.take()
                 cr1 = _created(iso, root)
-                events.append({**act, "res": res, "fs0": fs0, "fs1": fs1, "cr0": cr0[0], "cr1": cr1[0],
-                               "co1": cr1[1], "x0": x0, "x1": x1, "r1": True})
-                fs0, x0, cr0 = fs1, x1, cr1
+                events.append({**act, "res": res, "fs1": fs1, "cr1": cr1[0], "co1": cr1[1], "x1": x1,
+                               "r1": True})
             exited = True
             try:
                 iso.__exit__(None, None, None)
@@ -223,11 +229,19 @@ def replay(beh: dict, root: str) -> dict:
                 res = _resname(ex)
             fs1, x1, r1 = snap.take()
             cr1 = _created(iso, root)
-            events.append({**EXIT, "res": res, "fs0": fs0, "fs1": fs1, "cr0": cr0[0], "cr1": cr1[0],
-                           "co1": cr1[1], "x0": x0, "x1": x1, "r1": r1})
+            events.append({**EXIT, "res": res, "fs1": fs1, "cr1": cr1[0], "co1": cr1[1], "x1": x1, "r1": r1})
         finally:
             if not exited:
                 iso.__exit__(None, None, None)
         return {"pre": pre, "ev": events}
     finally:
         _RMTREE(root, ignore_errors=True)
+
+
+def expand(tr: dict) -> dict:
+    """Add fs0 / cr0 / x0 (state before each call) by reference."""
+    fs, cr, x = tr["pre"], [], []
+    for e in tr["ev"]:
+        e["fs0"], e["cr0"], e["x0"] = fs, cr, x
+        fs, cr, x = e["fs1"], e["cr1"], e["x1"]
+    return tr
